@@ -99,7 +99,7 @@ fn small_map(file: &str, src: &str, content: Option<&str>, toks: &[(u32, u32)], 
 }
 /// index maps: flatten == shifted sections, and index lookup agrees with the flattened map
 pub fn index_flatten() -> Report {
-    let bound = "2 sections, first at (0,0), second at offsets {(1,0),(1,4),(2,3)}, section tokens over {0,1}x{0,2,6} (<= 3 each, kept before the next offset), shared / distinct source names with contents present or absent; all queries in [0,4]x[0,12]";
+    let bound = "2 sections, first at (0,0), second at offsets {(1,0),(1,4),(2,3)}, section tokens over {0,1}x{0,2,6} (<= 3 each, kept before the next offset), shared / distinct source names with contents present or absent; all queries in [0,4]x[0,12]; 3..4 sections starting on one line / mid-line, tokens on section line 0 or only on line 1, all queries in [0,6]x[0,40]";
     let mut cases = 0u64;
     let tokensets: Vec<Vec<(u32, u32)>> = vec![vec![], vec![(0, 0)], vec![(0, 2)], vec![(0, 0), (0, 6)], vec![(0, 2), (1, 0)], vec![(0, 0), (1, 2), (1, 6)]];
     for off in [(1u32, 0u32), (1, 4), (2, 3)] { for t1 in &tokensets { for t2 in &tokensets { for shared in [false, true] { for c1 in [None, Some("first")] { for c2 in [None, Some("second")] {
@@ -144,6 +144,35 @@ pub fn index_flatten() -> Report {
             } }
         } }
     } } } } } }
+    // three and four sections starting on the same generated line, and a section whose line 0 is empty (its column offset must not move later lines)
+    for offs in [vec![(0u32, 0u32), (0, 10), (0, 20)], vec![(0, 0), (0, 10), (0, 20), (1, 5)], vec![(0, 0), (2, 10), (2, 30)], vec![(1, 3), (1, 9), (4, 0)]] { for lead_empty in [false, true] {
+        cases += 1;
+        let mut secs = vec![]; let mut flat_want: Vec<(u32, u32, String)> = vec![];
+        for (k, &off) in offs.iter().enumerate() {
+            // section k: tokens at (0,0),(0,4) -- or, with lead_empty, only on its line 1 when the next section leaves room
+            let next = offs.get(k + 1).copied();
+            let name = format!("s{k}.js");
+            let mut toks: Vec<(u32, u32)> = vec![(0, 0), (0, 4)];
+            if lead_empty && next.map_or(true, |n| n.0 > off.0 + 1) { toks = vec![(1, 0), (1, 4)]; }
+            toks.retain(|&(l, c)| { let p = (l + off.0, if l == 0 { c + off.1 } else { c }); next.map_or(true, |n| p < n) });
+            for &(l, c) in &toks { flat_want.push((l + off.0, if l == 0 { c + off.1 } else { c }, name.clone())); }
+            secs.push(SourceMapSection::new(off, None, Some(DecodedMap::Regular(small_map("m", &name, None, &toks, "n")))));
+        }
+        let idx = SourceMapIndex::new(None, secs);
+        let flat = match guarded(|| idx.flatten()) { Ok(Ok(f)) => f, o => return r("index_flatten", bound, cases, Some(format!("sections at {offs:?}: flatten failed: {:?}", o.map(|x| x.map(|_| ()))))) };
+        let mut got: Vec<(u32, u32, String)> = flat.tokens().map(|t| (t.get_dst_line(), t.get_dst_col(), t.get_source().unwrap_or("").to_string())).collect();
+        got.sort(); flat_want.sort();
+        if got != flat_want { return r("index_flatten", bound, cases, Some(format!("sections at {offs:?} (tokens on section line {}): flattened tokens {got:?}, expected {flat_want:?}", if lead_empty { 1 } else { 0 }))); }
+        for l in 0..=6u32 { for c in 0..=40u32 {
+            let a = match guarded(|| idx.lookup_token(l, c).map(|t| (t.get_source().unwrap_or("").to_string(), t.get_src_line(), t.get_src_col()))) { Ok(x) => x, Err(p) => return r("index_flatten", bound, cases, Some(format!("sections at {offs:?}: index lookup_token({l},{c}): {p}"))) };
+            let b = flat.lookup_token(l, c).map(|t| (t.get_source().unwrap_or("").to_string(), t.get_src_line(), t.get_src_col()));
+            crate::witness(a.is_some());
+            // which section must answer: the one with the greatest offset not after (l, c)
+            let sec = offs.iter().rposition(|&o| o <= (l, c));
+            if let (Some(k), Some(av)) = (sec, &a) { if av.0 != format!("s{k}.js") { return r("index_flatten", bound, cases, Some(format!("sections at {offs:?}: lookup_token({l},{c}) answers from {} but section {k} has the greatest offset not after the position", av.0))); } }
+            if let Some(av) = &a { if Some(av) != b.as_ref() { return r("index_flatten", bound, cases, Some(format!("sections at {offs:?}: index lookup_token({l},{c}) = {a:?} but the flattened map gives {b:?}"))); } }
+        } }
+    } }
     r("index_flatten", bound, cases, None)
 }
 
@@ -258,6 +287,9 @@ pub fn rewrite() -> Report {
                 let same_name_first_use = b.6.clone();
                 let dup_name = srcs.iter().filter(|s| **s == b.2).count() > 1;
                 if !dup_name && a.6 != same_name_first_use { return r("rewrite", bound, cases, Some(format!("sources {srcs:?} listed, first use from #{first}, contents mask {cmask:b}: source {} had contents {:?}, after rewrite {:?}", b.2, b.6, a.6))); }
+                // a name listed twice: the merged source carries the contents of the first token (in token order) of that name that has any
+                if dup_name { let w = before.iter().filter(|x| x.2 == b.2).filter_map(|x| x.6.clone()).next();
+                    if a.6 != w { return r("rewrite", bound, cases, Some(format!("sources {srcs:?} listed, first use from #{first}, contents mask {cmask:b}: the name {} is listed twice; after rewrite its contents are {:?}, the first referenced copy with contents has {:?}", b.2, a.6, w))); } }
             } else if a.6.is_some() { return r("rewrite", bound, cases, Some("contents kept although with_source_contents = false".into())); }
         }
         let outs: Vec<String> = (0..out.get_source_count()).map(|i| out.get_source(i).unwrap().to_string()).collect();
@@ -455,11 +487,11 @@ fn join(root: Option<&str>, raw: &str) -> String {
 }
 /// every source reads as raw name joined with the current root, after any sequence of setter calls
 pub fn root_setters() -> Report {
-    let bound = "all sequences of <= 3 operations from set_source_root(None | '' | 'r' | 'r/' | '/') and set_source(0 | 1, 'x.js' | '/abs.js' | 'http://h/y.js' | '') on a 2-source map";
+    let bound = "all sequences of <= 3 operations from set_source_root(None | '' | 'r' | 'r/' | 'r//' | '/' | 'w:///' | 'w://') and set_source(0 | 1, 'x.js' | '/abs.js' | 'http://h/y.js' | '') on a 2-source map";
     let mut cases = 0u64;
     #[derive(Clone, Debug)] enum Op { Root(Option<&'static str>), Src(u32, &'static str) }
     let mut ops = vec![];
-    for rt in [None, Some(""), Some("r"), Some("r/"), Some("/")] { ops.push(Op::Root(rt)); }
+    for rt in [None, Some(""), Some("r"), Some("r/"), Some("r//"), Some("/"), Some("w:///"), Some("w://")] { ops.push(Op::Root(rt)); }
     for i in 0..2 { for s in ["x.js", "/abs.js", "http://h/y.js", ""] { ops.push(Op::Src(i, s)); } }
     let mut seqs: Vec<Vec<Op>> = vec![vec![]]; let mut layer: Vec<Vec<Op>> = vec![vec![]];
     for _ in 0..3 { let mut next = vec![]; for s in &layer { for o in &ops { let mut t = s.clone(); t.push(o.clone()); next.push(t); } } seqs.extend(next.iter().cloned()); layer = next; }
@@ -481,20 +513,22 @@ pub fn root_setters() -> Report {
 }
 /// builder as an interning model
 pub fn builder_model() -> Report {
-    let bound = "all sequences of <= 4 operations from add_source / add_name over {'a','b',''} and set_source_contents(id, Some/None) over ids {0,1,2}; all sequences of <= 3 add() calls over 6 source/name combinations (each present or absent)";
+    let bound = "all sequences of <= 4 operations from add_source / add_name over {'a','b',''} and set_source_contents(id, Some/None) over ids {0,1,2} and add_to_ignore_list over ids {0,1} (before or after the source exists); all sequences of <= 3 add() calls over 6 source/name combinations (each present or absent)";
     let mut cases = 0u64;
-    #[derive(Clone, Debug)] enum Op { Src(&'static str), Name(&'static str), Cont(u32, Option<&'static str>) }
-    let mut ops = vec![]; for s in ["a", "b", ""] { ops.push(Op::Src(s)); ops.push(Op::Name(s)); } for i in 0..3 { ops.push(Op::Cont(i, Some("c"))); ops.push(Op::Cont(i, None)); }
+    #[derive(Clone, Debug)] enum Op { Src(&'static str), Name(&'static str), Cont(u32, Option<&'static str>), Ign(u32) }
+    let mut ops = vec![]; for s in ["a", "b", ""] { ops.push(Op::Src(s)); ops.push(Op::Name(s)); } for i in 0..3 { ops.push(Op::Cont(i, Some("c"))); ops.push(Op::Cont(i, None)); } for i in 0..2 { ops.push(Op::Ign(i)); }
     let mut seqs: Vec<Vec<Op>> = vec![vec![]]; let mut layer: Vec<Vec<Op>> = vec![vec![]];
     for _ in 0..4 { let mut next = vec![]; for s in &layer { for o in &ops { let mut t = s.clone(); t.push(o.clone()); next.push(t); } } seqs.extend(next.iter().cloned()); layer = next; }
     for seq in &seqs {
         cases += 1;
         let mut b = SourceMapBuilder::new(None);
         let (mut srcs, mut names): (Vec<&str>, Vec<&str>) = (vec![], vec![]); let mut cont: Vec<Option<String>> = vec![];
+        let mut ign: std::collections::BTreeSet<u32> = Default::default();
         let mut skip = false;
         for o in seq { match o {
             Op::Src(s) => { let id = b.add_source(s); let want = srcs.iter().position(|x| x == s).unwrap_or_else(|| { srcs.push(s); srcs.len() - 1 }); if id as usize != want { return r("builder_model", bound, cases, Some(format!("{seq:?}: add_source({s:?}) = {id}, model says {want}"))); } }
             Op::Name(s) => { let id = b.add_name(s); let want = names.iter().position(|x| x == s).unwrap_or_else(|| { names.push(s); names.len() - 1 }); if id as usize != want { return r("builder_model", bound, cases, Some(format!("{seq:?}: add_name({s:?}) = {id}, model says {want}"))); } }
+            Op::Ign(i) => { b.add_to_ignore_list(*i); ign.insert(*i); }
             Op::Cont(i, c) => { if *i as usize >= srcs.len() { skip = true; break; } if cont.len() < srcs.len() { cont.resize(srcs.len(), None); } cont[*i as usize] = c.map(|s| s.to_string()); b.set_source_contents(*i, *c); }
         } }
         if skip { continue; }
@@ -503,6 +537,8 @@ pub fn builder_model() -> Report {
         for (i, s) in srcs.iter().enumerate() { if sm.get_source(i as u32) != Some(s) { return r("builder_model", bound, cases, Some(format!("{seq:?}: finished map source {i} = {:?}, model {s:?}", sm.get_source(i as u32)))); }
             let want = cont.get(i).cloned().flatten(); if sm.get_source_contents(i as u32).map(|x| x.to_string()) != want { return r("builder_model", bound, cases, Some(format!("{seq:?}: finished map contents of source {i} = {:?}, model {want:?}", sm.get_source_contents(i as u32)))); } }
         for (i, s) in names.iter().enumerate() { if sm.get_name(i as u32) != Some(s) { return r("builder_model", bound, cases, Some(format!("{seq:?}: finished map name {i} wrong"))); } }
+        let gi: std::collections::BTreeSet<u32> = sm.ignore_list().cloned().collect();
+        if gi != ign { return r("builder_model", bound, cases, Some(format!("{seq:?}: finished map ignore list {gi:?}, the ids passed to add_to_ignore_list were {ign:?}"))); }
     }
     // add(): every added token resolves to exactly the strings it was added with, whatever mix of source / name is given
     let opts: Vec<(Option<&str>, Option<&str>)> = vec![(None, None), (Some("a.js"), None), (None, Some("n")), (Some("a.js"), Some("n")), (Some("b.js"), Some("m")), (None, Some("m"))];
